@@ -207,12 +207,17 @@ func (r *runner) mismatch(m Mismatch) bool {
 // replayLine dispatches a stored request line to its stream.
 func (r *runner) replayLine(id, line string) {
 	switch {
-	case strings.HasPrefix(line, "P "):
+	case strings.HasPrefix(line, "P "), strings.HasPrefix(line, "W "):
+		warm := ""
+		if f := strings.SplitN(line, " ", 3); f[0] == "W" && len(f) == 3 {
+			warm, line = f[1], f[2]
+		}
 		p, _, err := vd.ParsePolicyRequest(line)
 		if err != nil {
 			r.mismatch(Mismatch{Case: id, Request: line, Note: err.Error()})
 			return
 		}
+		p.WarmArch = warm
 		r.onePolicy(id, p, true)
 	case strings.HasPrefix(line, "B "):
 		goReply, _ := vd.ReplayBuilder(line)
@@ -245,6 +250,11 @@ func (r *runner) onePolicy(id string, p *vd.Policy, forceOracle bool) bool {
 	if err != nil {
 		r.sum.Error = err.Error()
 		return true
+	}
+	shown := req // what a mismatch records: the request, prefixed by the history if there is one
+	if p.WarmArch != "" {
+		shown = "W " + p.WarmArch + " " + req
+		r.tag("history:assembled-for-another-arch-first")
 	}
 	// features
 	nconds, nlists, nnames := 0, 0, 0
@@ -308,6 +318,9 @@ func (r *runner) onePolicy(id string, p *vd.Policy, forceOracle bool) bool {
 		nontrivial = ok && plen > 255
 	case "boundary":
 		nontrivial = ok && plen >= 250 && plen <= 268
+	case "limit":
+		r.tag(fmt.Sprintf("limit-len:%d", plen))
+		nontrivial = !ok || (plen >= 4085 && plen <= 4110)
 	case "defects":
 		nontrivial = !ok || len(p.Groups) >= 2
 	default:
@@ -316,10 +329,29 @@ func (r *runner) onePolicy(id string, p *vd.Policy, forceOracle bool) bool {
 	r.count(req, nontrivial)
 	r.sample(req + "  =>  " + goReply)
 	if !vd.ComparePolicy(goReply, modelReply, p.Arch) {
-		m := Mismatch{Case: id, Request: req, Go: goReply, Model: modelReply}
+		m := Mismatch{Case: id, Request: shown, Go: goReply, Model: modelReply}
+		if p.WarmArch != "" {
+			m.Note = "history: the same Policy value was assembled for " + p.WarmArch + " before (result discarded)"
+		}
 		if ok {
 			m.Oracle, _ = r.model.Ask("X " + p.Arch + " " + p.Endian + " " + p.Body() + " " + strings.TrimPrefix(goReply, "OK "))
 			r.sum.OracleRuns++
+		}
+		// C07 is about the verdict itself: the model's verdict is the specification's
+		// (Proofs.C07.accepted_iff_not_defective), so a policy on which the two verdicts differ
+		// is a failing input of the property, not only a broken correspondence.
+		if os.Getenv("VERIF_PID") == "C07" && (*profile == "defects" || *profile == "limit") {
+			mok := strings.HasPrefix(modelReply, "OK ")
+			var mlen int
+			fmt.Sscanf(modelReply, "OK %d", &mlen)
+			switch {
+			case strings.HasPrefix(goReply, "PANIC"):
+				m.FailingInput = "Policy.Assemble panics on this policy: " + goReply
+			case !ok && mok && mlen <= 4096:
+				m.FailingInput = fmt.Sprintf("a policy free of every listed defect, which compiles to %d ≤ 4096 instructions, is refused by Policy.Assemble: %s", mlen, goReply)
+			case ok && !mok && !strings.HasPrefix(m.Oracle, "CEX "):
+				m.FailingInput = "a defective policy (" + modelReply + ") is accepted by Policy.Assemble"
+			}
 		}
 		return r.mismatch(m)
 	}
@@ -373,8 +405,17 @@ func (r *runner) policyStream(rng *rand.Rand) error {
 			}
 		case "boundary":
 			p = vd.GenBoundary(rng)
+		case "limit":
+			// sweep the sizes around the kernel's limit: 4090 … 4101 in turn
+			target := 4090 + i%12
+			p = vd.GenLimit(rng, target)
+			r.tag(fmt.Sprintf("limit-target:%d", target))
 		default:
 			p = vd.GenValid(rng, *profile)
+		}
+		if (*profile == "defects" || *profile == "mix" || *profile == "names") && rng.Intn(6) == 0 {
+			// a policy value that has been assembled for another architecture before
+			p.WarmArch = vd.TableArches[rng.Intn(len(vd.TableArches))]
 		}
 		if r.onePolicy(fmt.Sprintf("%s#%d", *profile, i), p, false) {
 			break
